@@ -107,7 +107,7 @@ def mootsOf (table : List (List Nat)) (k : Nat) : List Nat := (table[k]?).getD [
 
 /-! ### internal errors known to remain reachable from a script
 
-None: the table is empty (D5, D8, D65, D65b, D66, D67, D68, D69, D69b, D70, D06b, D71 are repaired in the repository), so
+None: the table is empty (D5, D8, D65, D65b, D66, D67, D68, D69, D69b, D70, D06b, D71, D72, D72b are repaired in the repository), so
 every internal error the search meets is a failing input.  `(finding, exception class, innermost function)`: a failing
 input is attributed to a known finding only if its (class, function) is listed here. -/
 def knownCrashSites : List (String × String × String) := []
